@@ -287,10 +287,10 @@ fn enumerate(ctx: &mut Ctx) {
         part,
         "complete enumeration of 6 presets x {store_gradient, store_unconstrained, store_transformed, store_divergences} x mass-matrix \
          options (diag: store_mass_matrix x use_grad_based_estimate; low-rank: store_mass_matrix); per configuration generated histories \
-         (40 quick / 1000 thorough) on wall densities with dim in {0,1,2,5} (thorough also 17, 40; MCLMC >= 2), 28..80 draws; non-trivial = history \
+         (200 quick / 3000 thorough) on wall densities with dim in {0,1,2,5} (thorough also 17, 40; MCLMC >= 2), 28..80 draws; non-trivial = history \
          with a divergence and >= 2 transformation updates; distinct by (preset, dim, flags)",
     );
-    let reps = ctx.tier.pick(40usize, 1000usize);
+    let reps = ctx.tier.pick(200usize, 3000usize);
     static DIMS_Q: [usize; 4] = [0, 1, 2, 5];
     static DIMS_T: [usize; 6] = [0, 1, 2, 5, 17, 40];
     let dims: &'static [usize] = ctx.tier.pick(&DIMS_Q[..], &DIMS_T[..]);
